@@ -378,6 +378,7 @@ pub struct Inventory {
     /// object numbers read while the document is opened (everything the typed load of the trailer
     /// and catalog depends on); observed through the Log seam
     pub structural: Vec<u64>,
+    pub encrypted: bool,
 }
 
 fn classify(p: &Primitive) -> ObjKind {
@@ -440,7 +441,7 @@ pub fn inventory(bytes: &[u8], password: &[u8]) -> Inventory {
     let opened = open(bytes, &ctl, false, password);
     let structural: Vec<u64> = ctl.touched.lock().unwrap().take().map(|s| s.into_iter().collect()).unwrap_or_default();
     match opened {
-        Err(_) => Inventory { size: 0, n_pages: 0, objects: vec![], loadable: false, trailer_refs: vec![], structural: vec![] },
+        Err(_) => Inventory { size: 0, n_pages: 0, objects: vec![], loadable: false, trailer_refs: vec![], structural: vec![], encrypted: false },
         Ok(file) => {
             let size = file.trailer.size.max(0) as u64;
             let res = file.resolver();
@@ -452,7 +453,7 @@ pub fn inventory(bytes: &[u8], password: &[u8]) -> Inventory {
                 };
                 objects.push((id, kind));
             }
-            Inventory { size, n_pages: file.num_pages(), objects, loadable: true, trailer_refs: trailer_refs(bytes, password), structural }
+            Inventory { size, n_pages: file.num_pages(), objects, loadable: true, trailer_refs: trailer_refs(bytes, password), structural, encrypted: file.trailer.encrypt_dict.is_some() }
         }
     }
 }
